@@ -754,6 +754,7 @@ def model_config():
 def trace_groups(steps, fs):
     """event groups for ScopeRun.up_replay; returns (groups, info)"""
     unwind_closes = bool(model_config().get("unwind_closes_upvalues"))
+    jf_closes = bool(model_config().get("jump_finally_closes_upvalues"))
     CLOSURE, CLOSEUP, RETURN, POPEXC, JUMPFIN = [opnum(x) for x in ("Closure", "CloseUpvalue", "Return", "PopExcHandler", "JumpFinally")]
     groups = []
     info = {"captures": 0, "closes": 0, "returns": 0, "unwinds": 0, "unwind_over_open": None, "undecodable": 0,
@@ -798,7 +799,7 @@ def trace_groups(steps, fs):
             info["unwinds"] += 1
             if op == JUMPFIN:
                 info["jump_finally"] = info.get("jump_finally", 0) + 1
-            if unwind_closes and op != JUMPFIN:
+            if (jf_closes if op == JUMPFIN else unwind_closes):
                 ev.append([4, s["hsize"]])       # close_upvalues(init_stack_size); truncate
             elif any(x >= s["hsize"] for x in s["u"]):
                 info["unwind_over_open"] = (i, s["u"], s["hsize"], "JumpFinally" if op == JUMPFIN else "unwind_stack")
@@ -858,7 +859,7 @@ def impl_outcome(rec):
 PROBES = [
     ("return_in_try_finally",
      "var G = nil; fn f() { try { var x = 5; G = || x; return 1; } finally { var y = 99; print(y); } } print(f()); print(G());",
-     ["99", "1", "5"], "return_in_try_leaves_open_upvalue"),
+     ["99", "1", "5"], None),
     ("method_parameter",
      "#[constructor(new)] class A { fn mk(self, p) { return || { p = p + 1; return p; }; } } var a = A.new(); var c = a.mk(5); "
      "var d = a.mk(50); print(c()); print(c()); print(d());", ["6", "7", "51"], None),
@@ -1043,10 +1044,38 @@ def judge(ctx, d, stats, tags=None, variant=None):
             stats["mtrace_equal"] += 1
 
 
+def refspec_compare(ctx, ds, stats, tag):
+    """the FULL reference interpreter (SpecScripts.run_case = run_program (parse_source src), other owners' files) on the
+    rendered sources, against eval_cells; skipped when those files are not built"""
+    import binascii
+    if not all(os.path.exists(os.path.join(yvlib.COQ, "theories", f)) for f in ("SpecRun.vo", "ParseRun.vo", "SpecScripts.vo")):
+        ctx.notes.append("SpecRun/ParseRun/SpecScripts not built: comparison with the full reference interpreter skipped")
+        return
+    terms = ['run_case 300 [] "%s"' % binascii.hexlify(d["src"].encode()).decode() for d in ds]
+    vals = yvlib.coq_eval(["YV:SpecScripts"], terms, shard_size=max(4, (len(terms) + 15) // 16), tag="C06ref" + tag,
+                          preamble="Open Scope string_scope.\n")
+    for d, v in zip(ds, vals):
+        mm = re.match(r"^out=\[([0-9a-f,]*)\];res=(ok|err|fuel)", v or "")
+        if not mm:
+            stats["refspec_failed"] += 1
+            continue
+        out = [binascii.unhexlify(x).decode("utf-8", "replace") for x in mm.group(1).split(",") if x] if mm.group(1) else []
+        ref = "|".join(norm_out(out)) + "#" + mm.group(2)
+        stats["refspec_compared"] += 1
+        if ref != d["spec"]:
+            stats["refspec_disagree"] += 1
+            if d.get("impl") == ref:
+                ctx.broken.append("eval_cells differs from the full reference interpreter AND from the implementation: %s | eval_cells %s | SpecRun %s"
+                                  % (d["src"][:300], d["spec"], ref))
+            elif len(ctx.notes) < 6:
+                ctx.notes.append("SpecRun.run_program differs from eval_cells (= implementation) on: %s | eval_cells %s | SpecRun %s"
+                                 % (d["src"][:300], d["spec"], ref))
+
+
 def new_stats():
     return {"evaluated": 0, "discarded_stuck": 0, "nontrivial": set(), "known": {}, "known_witness": {}, "traced": 0,
             "trace_steps": 0, "ev_captures": 0, "ev_closes": 0, "ev_returns": 0, "ev_unwinds": 0, "ev_switches": 0,
-            "max_open": 0, "mtrace_equal": 0}
+            "max_open": 0, "mtrace_equal": 0, "refspec_compared": 0, "refspec_disagree": 0, "refspec_failed": 0}
 
 
 def script_traces(ctx, stats):
@@ -1131,9 +1160,10 @@ def run(ctx):
             judge(ctx, res[0], stats)
         ctx.cov.update({"evaluations": 1, "distinct_nontrivial": len(stats["nontrivial"]), "rule": "replay", "samples": [res[0]["src"] if res[0] else ""]})
         return
-    nprog = 300 if quick else 3000
-    ntrace = 100 if quick else 900
-    nmeta = 40 if quick else 400
+    scale = float(os.environ.get("C06_SCALE", "1"))      # developer knob (mutation runs); the registered check uses 1
+    nprog = int((400 if quick else 3000) * scale)
+    ntrace = int((140 if quick else 900) * scale)
+    nmeta = int((50 if quick else 400) * scale)
     g = G(rng)
     progs, tags = [], []
     for _ in range(nprog):
@@ -1175,6 +1205,7 @@ def run(ctx):
             ctx.broken.append("eval_cells is not invariant under wrapping the top level in a %s: %s" % (k, b["src"][:300]))
         else:
             nmeta_ok += 1
+    refspec_compare(ctx, [d for d in res if d is not None and "#stuck" not in d["spec"]][:(60 if quick else 500)], stats, "gen")
     nprobes = run_probes(ctx, stats)
     t0 = time.time()
     nscripts = script_traces(ctx, stats)
@@ -1216,7 +1247,8 @@ def run(ctx):
         "known_class_hits": stats["known"],
         "traces_validated_against_impl": stats["traced"] + nscripts, "trace_steps": stats["trace_steps"],
         "trace_events": {k[3:]: v for k, v in stats.items() if k.startswith("ev_")}, "max_open_list_length": stats["max_open"],
-        "model_machine_traces_equal": stats["mtrace_equal"], "repo_scripts_traced": nscripts,
+        "model_machine_traces_equal": stats["mtrace_equal"],
+        "full_reference_interpreter": {"compared": stats["refspec_compared"], "disagree": stats["refspec_disagree"], "unparsed": stats["refspec_failed"]}, "repo_scripts_traced": nscripts,
         "model_config": json.load(open(os.path.join(yvlib.COQ, "gen", "manifest.json"))).get("c06", {}),
     })
 
@@ -1233,7 +1265,7 @@ def detuple(x):
 def search(ctx):
     """obligations / correspondences broken: look for a failing input with the thorough generators (Spec oracle)"""
     old = ctx.tier
-    ctx.tier = "thorough"
+    ctx.tier = os.environ.get("C06_SEARCH_TIER", "thorough")     # developer knob (mutation runs)
     try:
         run(ctx)
     finally:
